@@ -133,6 +133,12 @@ func (db *MultiBucketBackend) getBucketWithFilePrefixLocked(bucket string, prefi
 
 	response := gofakes3.NewObjectList()
 
+	if prefixPath != "" && !keyInsideBucket(prefixPath) {
+		// No stored key has '.', '..' or empty segments; followed as a path,
+		// such a prefix would list another bucket's directory:
+		return response, nil
+	}
+
 	if stat, err := db.bucketFs.Stat(filepath.FromSlash(bucketPath)); err == nil && !stat.IsDir() && prefixPath != "" {
 		// The directory part of the prefix names an object, not a directory:
 		return response, nil
